@@ -23,7 +23,7 @@ pub fn prop() -> Prop {
          schema definition) is equal; second serialization is byte-identical; valid stays valid. \
          Non-trivial: at least one type (or the schema definition) has an extension; distinct by source text.",
     )
-    .random("rich-extensions", check, |t| if t == Tier::Quick { 40_000 } else { 500_000 }, |t| if t == Tier::Quick { 1200 } else { 1600 })
+    .random("rich-extensions", check, |t| if t == Tier::Quick { 120_000 } else { 1_200_000 }, |t| if t == Tier::Quick { 1200 } else { 1600 })
     .text(check_text)
     .assumptions(&[
         "a `schema` definition always keeps at least one root operation (a definition without one is not grammatical)",
@@ -90,26 +90,60 @@ fn is_block_permutation(orig: &[(String, ComponentOrigin)], reparsed: &[String])
     true
 }
 
+/// The order in which the KNOWN defect (KNOWN_FINDINGS: extension-emission-order) lists one
+/// collection after the round trip: serialization emits the definition, then the extensions in the
+/// order their ids are first met when scanning the type's directives, then its implemented
+/// interfaces, then its fields / values / members. Computed from public component origins only.
+fn known_defect_order(s: &Schema, type_name: &str, orig: &[(String, ComponentOrigin)]) -> Option<Vec<String>> {
+    let ty = s.types.get(type_name)?;
+    let mut scan: Vec<ComponentOrigin> = ty.directives().iter().map(|d| d.origin.clone()).collect();
+    match ty {
+        ExtendedType::Scalar(_) => {}
+        ExtendedType::Object(o) => {
+            scan.extend(o.implements_interfaces.iter().map(|c| c.origin.clone()));
+            scan.extend(o.fields.values().map(|c| c.origin.clone()));
+        }
+        ExtendedType::Interface(o) => {
+            scan.extend(o.implements_interfaces.iter().map(|c| c.origin.clone()));
+            scan.extend(o.fields.values().map(|c| c.origin.clone()));
+        }
+        ExtendedType::Union(u) => scan.extend(u.members.iter().map(|c| c.origin.clone())),
+        ExtendedType::Enum(e) => scan.extend(e.values.values().map(|c| c.origin.clone())),
+        ExtendedType::InputObject(i) => scan.extend(i.fields.values().map(|c| c.origin.clone())),
+    }
+    let mut emitted: Vec<ComponentOrigin> = vec![ComponentOrigin::Definition];
+    for o in scan {
+        if !emitted.contains(&o) {
+            emitted.push(o);
+        }
+    }
+    let mut out = vec![];
+    for e in &emitted {
+        out.extend(orig.iter().filter(|(_, o)| o == e).map(|(n, _)| n.clone()));
+    }
+    Some(out)
+}
+
 fn order_failure(s: &Schema, d: &Diff) -> (String, String) {
     let list_kinds = ["fields", "implements", "members", "values", "input-fields"];
     let detail = format!("{}: built schema has [{}], reparsed schema has [{}]", d.path, d.left.as_deref().unwrap_or("<absent>"), d.right.as_deref().unwrap_or("<absent>"));
     if list_kinds.contains(&d.kind) {
         if let (Some(l), Some(r)) = (&d.left, &d.right) {
-            let type_name = d.path.rsplit_once('.').map(|x| x.0).unwrap_or("");
+            let type_name = d.path.rsplit_once('.').map(|x| x.0).unwrap_or("").trim_start_matches("type ");
             let mut ln: Vec<&str> = l.split(',').collect();
             let mut rn: Vec<&str> = r.split(',').collect();
             let reparsed: Vec<String> = rn.iter().map(|x| x.to_string()).collect();
             ln.sort();
             rn.sort();
             if ln == rn {
-                let cause = match component_origins(s, type_name, d.kind) {
-                    Some(orig) if is_block_permutation(&orig, &reparsed) => "extension-emission-order",
-                    _ => "unexplained",
+                let (cause, why) = match component_origins(s, type_name, d.kind) {
+                    Some(orig) if known_defect_order(s, type_name, &orig).as_ref() == Some(&reparsed) => {
+                        ("extension-emission-order", "exactly the order produced by emitting the extensions as their ids are met in directives, then interfaces, then fields/values/members")
+                    }
+                    Some(orig) if is_block_permutation(&orig, &reparsed) => ("extension-blocks-permuted", "whole extensions were emitted in another order than they were applied, but not in the order of the known defect"),
+                    _ => ("unexplained", "not a permutation of whole extensions"),
                 };
-                return (
-                    format!("C12|order|{}|{}", d.kind, cause),
-                    format!("{detail} (same names, different order; {})", if cause == "unexplained" { "not a permutation of whole extensions" } else { "whole extensions were emitted in another order than they were applied" }),
-                );
+                return (format!("C12|order|{}|{}", d.kind, cause), format!("{detail} (same names, different order; {why})"));
             }
         }
         return (format!("C12|walk|{}", d.kind), detail);
